@@ -17,7 +17,7 @@ func init() {
 	register(&Property{
 		ID:      "C17",
 		NeedGen: true,
-		Runtime: []string{"./codegen/templates", "./plugin/resolvergen"},
+		Runtime: []string{"./codegen/templates", "./plugin/resolvergen", "./plugin/modelgen", "./plugin/federation"},
 		Run:     runC17,
 		Explanation: "Narrow structural claim for C17: (1) every registered generator configuration (the repository's own regression configs plus /verif probe overlays, " +
 			"regenerated from the current templates by the repository's own generator driver built from the snapshot) generates without error/panic and every emitted package " +
